@@ -602,6 +602,20 @@ def gen_malformed(rng, i, p_wellformed=0.1, allow_random=True, huge=False):
                         recs.append(rec2)
                 return inp, data, recs, "beyond-enclosing"
     r = rng.random()
+    if inp["root"] == model.STREAM and rng.random() < 0.04 and len(inp.get("bounds", ())) > 1:
+        # the outermost size field of the *last* message is too large by k and exactly k bytes (or k +- 1, or k bytes of the
+        # start of another message) end the input: a shortfall whose padding is exactly what is left
+        last = [i_ for i_, ri in o.sizefields if o.regions[ri].kind in ("commandSize", "responseSize")]
+        if last:
+            idx = last[-1]
+            it = o.items[idx]
+            k = rng.choice((1, 2, 3, 4, 8, 10, 13))
+            d2 = F.put(data, it, it[3] + k)
+            if d2 is not None:
+                n_ = k + rng.choice((0, 0, 0, 1, -1))
+                filler = (b"\x80\x01\x00\x00\x00\x0c\x00\x00\x01\x7b\x00\x10" * 2)[:max(0, n_)] if rng.random() < 0.5 else bytes(rng.randrange(256) for _ in range(max(0, n_)))
+                return inp, d2 + filler, [F._rec("size", o, it, idx, old=it[3], new=it[3] + k, region="outermost", delta="pad-exact"),
+                                          dict(kind="append", off=len(d2), depth=0, regions=[], cls="end", n=len(filler))], "pad-exact"
     if rng.random() < 0.03:
         f = F.fault_end_at_selector(data, o, rng)
         if f:
